@@ -94,6 +94,12 @@ pub struct Interpreter<TStdlib: Stdlib, TStdIn: Input, TStdOut: Printer, TLpt1: 
 
     last_error_address: Option<usize>,
 
+    /// The heights of the register stack and of the value stack when the most
+    /// recent handled error occurred: a RESUME or RESUME NEXT executed inside a
+    /// FOR loop or a SELECT CASE block of the handler must not leave the loop's
+    /// register frame or the selector behind
+    last_error_marks: (usize, usize),
+
     last_error_code: Option<i32>,
 
     print_state: PrintState,
@@ -244,6 +250,8 @@ impl<TStdlib: Stdlib, TStdIn: Input, TStdOut: Printer, TLpt1: Printer> Interpret
                             // store error address, so we can call RESUME and RESUME NEXT from within the error handler
                             self.context.push_error_handler_context();
                             self.last_error_address = Some(i);
+                            self.last_error_marks =
+                                (self.register_stack.len(), self.value_stack.len());
                             i = handler_address;
                         }
                         ErrorHandler::Next => {
@@ -313,6 +321,7 @@ impl<TStdlib: Stdlib, TStdIn: Input, TStdOut: Printer, TLpt1: Printer>
             function_result: None,
             value_stack: vec![],
             last_error_address: None,
+            last_error_marks: (0, 0),
             last_error_code: None,
             print_state: PrintState::new(),
             data_segment: DataSegment::default(),
@@ -550,12 +559,14 @@ impl<TStdlib: Stdlib, TStdIn: Input, TStdOut: Printer, TLpt1: Printer>
                         .find_current(last_error_address),
                 );
                 self.context.pop();
+                self.leave_error_handler_blocks();
             }
             Instruction::ResumeNext => {
                 let last_error_address = self.take_last_error_address().with_err_at(&pos)?;
                 ctx.opt_next_index =
                     Some(ctx.nearest_statement_finder.find_next(last_error_address));
                 self.context.pop();
+                self.leave_error_handler_blocks();
             }
             Instruction::ResumeLabel(resume_label) => {
                 // not using the last error address but need to clear it which also clears the err code
@@ -761,6 +772,15 @@ impl<TStdlib: Stdlib, TStdIn: Input, TStdOut: Printer, TLpt1: Printer>
         } else {
             None
         }
+    }
+
+    /// Leaves the FOR loops and SELECT CASE blocks of the error handler that
+    /// the RESUME or RESUME NEXT was executed in: the failing statement, or the
+    /// one after it, continues with the register frames and selectors it had.
+    fn leave_error_handler_blocks(&mut self) {
+        let (registers, values) = self.last_error_marks;
+        self.register_stack.truncate(registers);
+        self.value_stack.truncate(values);
     }
 
     fn take_last_error_address(&mut self) -> Result<usize, RuntimeError> {
